@@ -89,6 +89,8 @@ func (m *DefaultInterfaceMocker) Apply(callback interface{}) {
 	if m.method == "" {
 		panic("method is empty")
 	}
+	// Apply 会覆盖之前设定的 When 条件和 Return
+	m.when = nil
 	m.applyByIFaceMethod(m.ctx, m.iFace, m.method, callback, nil)
 }
 
